@@ -1,7 +1,7 @@
 SPECIFICATION Spec
 CONSTANTS
-  Prepared = FALSE
-  MaxLen = 4
+  Prepared = TRUE
+  MaxLen = 6
   RenderReleasesRoot = FALSE
 INVARIANTS
   NoStaleRender
